@@ -57,4 +57,141 @@ theorem cw_lt_of_not_between_closed (n s key : Nat) (hn : n < M) (hs : s < M) (h
   unfold cw
   by_cases e1 : s = key <;> by_cases e2 : n = key <;> simp [e1, e2] <;> omega
 
+/-! ### case analysis of `findSucc` without unfolding matches -/
+
+theorem findSucc_zero (net : Net) (n key : Nat) : findSucc net 0 n key = .err .fuel := rfl
+
+theorem findSucc_none (net : Net) (f n key : Nat) (hg : net.get n = none) :
+    findSucc net (f+1) n key = .err .unreachable := by
+  rw [findSucc]; simp [hg]
+
+theorem findSucc_dead (net : Net) (f n key : Nat) (nd : Node) (e : Err) (hg : net.get n = some nd)
+    (hc : checkNodeState nd false = some e) : findSucc net (f+1) n key = .err e := by
+  rw [findSucc]; simp [hg, hc]
+
+theorem findSucc_pred (net : Net) (f n key : Nat) (nd : Node) (hg : net.get n = some nd)
+    (hc : checkNodeState nd false = none) (h : inPredRange nd.pred key n = true) :
+    findSucc net (f+1) n key = .found n := by
+  rw [findSucc]; simp [hg, hc, h]
+
+theorem findSucc_nosucc (net : Net) (f n key : Nat) (nd : Node) (hg : net.get n = some nd)
+    (hc : checkNodeState nd false = none) (h : inPredRange nd.pred key n = false)
+    (hs : nd.succs.head? = none) : findSucc net (f+1) n key = .err .noSuccessor := by
+  rw [findSucc]; simp [hg, hc, h, hs]
+
+theorem findSucc_succ_found (net : Net) (f n key s : Nat) (nd : Node) (hg : net.get n = some nd)
+    (hc : checkNodeState nd false = none) (h : inPredRange nd.pred key n = false)
+    (hs : nd.succs.head? = some s) (hb : between n key s true = true) :
+    findSucc net (f+1) n key = .found s := by
+  rw [findSucc]; simp [hg, hc, h, hs, hb]
+
+theorem findSucc_hop (net : Net) (f n key s : Nat) (nd : Node) (hg : net.get n = some nd)
+    (hc : checkNodeState nd false = none) (h : inPredRange nd.pred key n = false)
+    (hs : nd.succs.head? = some s) (hb : between n key s true = false) :
+    findSucc net (f+1) n key = findSucc net f (hop n key s nd.fingers) key := by
+  rw [findSucc]; simp [hg, hc, h, hs, hb]
+
+/-- the six ways a lookup step can go -/
+inductive StepCase (net : Net) (n key : Nat) : Type where
+  | none (hg : net.get n = none)
+  | dead (nd : Node) (e : Err) (hg : net.get n = some nd) (hc : checkNodeState nd false = some e)
+  | pred (nd : Node) (hg : net.get n = some nd) (hc : checkNodeState nd false = none)
+      (h : inPredRange nd.pred key n = true)
+  | nosucc (nd : Node) (hg : net.get n = some nd) (hc : checkNodeState nd false = none)
+      (h : inPredRange nd.pred key n = false) (hs : nd.succs.head? = none)
+  | succ (nd : Node) (s : Nat) (hg : net.get n = some nd) (hc : checkNodeState nd false = none)
+      (h : inPredRange nd.pred key n = false) (hs : nd.succs.head? = some s) (hb : between n key s true = true)
+  | hop (nd : Node) (s : Nat) (hg : net.get n = some nd) (hc : checkNodeState nd false = none)
+      (h : inPredRange nd.pred key n = false) (hs : nd.succs.head? = some s) (hb : between n key s true = false)
+
+def stepCase (net : Net) (n key : Nat) : StepCase net n key :=
+  match hg : net.get n with
+  | none => .none hg
+  | some nd =>
+    match hc : checkNodeState nd false with
+    | some e => .dead nd e hg hc
+    | none =>
+      match h : inPredRange nd.pred key n with
+      | true => .pred nd hg hc h
+      | false =>
+        match hs : nd.succs.head? with
+        | none => .nosucc nd hg hc h hs
+        | some s =>
+          match hb : between n key s true with
+          | true => .succ nd s hg hc h hs hb
+          | false => .hop nd s hg hc h hs hb
+
+theorem checkNodeState_ne_fuel (nd : Node) (b : Bool) : checkNodeState nd b ≠ some .fuel := by
+  unfold checkNodeState
+  cases nd.crashed <;> cases nd.state <;> cases b <;> simp
+
+theorem closestPreceding_cases (self key : Nat) (fs : List (Option Nat)) :
+    closestPreceding self key fs = self ∨
+    (some (closestPreceding self key fs) ∈ fs ∧ between self (closestPreceding self key fs) key false = true) := by
+  unfold closestPreceding
+  cases h : (fs.reverse.filterMap id).find? (fun f => between self f key false) with
+  | none => left; rfl
+  | some f =>
+    right
+    have hm := List.mem_of_find?_eq_some h
+    have hp := List.find?_some h
+    simp only [List.mem_filterMap, List.mem_reverse, id] at hm
+    obtain ⟨a, ha, rfl⟩ := hm
+    exact ⟨ha, by simpa using hp⟩
+
+/-- the hop target is the successor or a finger strictly inside (n, key) -/
+theorem hop_cases (n key s : Nat) (fs : List (Option Nat)) :
+    hop n key s fs = s ∨ (some (hop n key s fs) ∈ fs ∧ between n (hop n key s fs) key false = true) := by
+  unfold hop
+  by_cases e : (closestPreceding n key fs == n) = true
+  · left; simp [e]
+  · right
+    rw [if_neg e]
+    rcases closestPreceding_cases n key fs with h | h
+    · exfalso; apply e; simp [h]
+    · exact h
+
+/-- every hop strictly decreases the clockwise distance to the key (all identifiers in the ring) -/
+theorem hop_decreases (n key s : Nat) (fs : List (Option Nat)) (hn : n < M) (hk : key < M) (hs : s < M)
+    (hfs : ∀ f, some f ∈ fs → f < M) (hb : between n key s true = false) :
+    hop n key s fs < M ∧ cw key (hop n key s fs) < cw key n := by
+  rcases hop_cases n key s fs with h | ⟨hm, hbt⟩
+  · rw [h]; exact ⟨hs, cw_lt_of_not_between_closed n s key hn hs hk (by simp [hb])⟩
+  · exact ⟨hfs _ hm, cw_lt_of_between_open n _ key hn (hfs _ hm) hk hbt⟩
+
+/-- the six outcomes of the local hand-off of `RequestToJoin` -/
+theorem handOff_cases (net : Net) (s j : Nat) :
+    (net.get s = none ∧ handOff net s j = (net, .error .unreachable)) ∨
+    (∃ nd, net.get s = some nd ∧ nd.state ≠ .active ∧ handOff net s j = (net, .error .joinInvalidState)) ∨
+    (∃ nd, net.get s = some nd ∧ nd.state = .active ∧ nd.pred = none ∧
+        handOff net s j = (net, .error .joinInvalidState)) ∨
+    (∃ nd prev, net.get s = some nd ∧ nd.state = .active ∧ nd.pred = some prev ∧ between prev j s false = false ∧
+        handOff net s j = (net, .error .joinInvalidSuccessor)) ∨
+    (∃ nd prev, net.get s = some nd ∧ nd.state = .active ∧ nd.pred = some prev ∧ between prev j s false = true ∧
+        transferUp net s j prev nd.store = none ∧ handOff net s j = (net, .error .joinTransferFailure)) ∨
+    (∃ nd prev net', net.get s = some nd ∧ nd.state = .active ∧ nd.pred = some prev ∧ between prev j s false = true ∧
+        transferUp net s j prev nd.store = some net' ∧
+        handOff net s j =
+          (net'.upd s (fun nd => { nd with state := .transferring, pred := some j, surrogate := some j }),
+           .ok (prev, makeSuccList s nd.succs succEntries))) := by
+  unfold handOff
+  cases hg : net.get s with
+  | none => left; simp
+  | some nd =>
+    right
+    by_cases c1 : nd.state = .active
+    · right
+      cases hp : nd.pred with
+      | none => left; exact ⟨nd, rfl, c1, hp, by simp [c1, hp]⟩
+      | some prev =>
+        right
+        cases hb : between prev j s false with
+        | false => left; exact ⟨nd, prev, rfl, c1, hp, hb, by simp [c1, hp, hb]⟩
+        | true =>
+          right
+          cases ht : transferUp net s j prev nd.store with
+          | none => left; exact ⟨nd, prev, rfl, c1, hp, hb, ht, by simp [c1, hp, hb, ht]⟩
+          | some net' => right; exact ⟨nd, prev, net', rfl, c1, hp, hb, ht, by simp [c1, hp, hb, ht]⟩
+    · left; exact ⟨nd, rfl, c1, by simp [c1]⟩
+
 end Specter.Ring
